@@ -3,6 +3,7 @@
 Generates loader sets (raw / file / args, 1-4 loaders plus the ArgsLoader(os.Args) of configure.Default()),
 key trees with overlapping and disjoint keys, option sequences (SetConfig / AddConfigLoader / SetConfigLoader in
 every order), runs the REAL App on them (harness/cmd/c15) and evaluates model and oracle in Coq (Corr/Check_C15.v)."""
+import copy
 import glob
 import json
 import os
@@ -261,6 +262,8 @@ def gen_case(rng, cid, profile):
         loaders.insert(rng.randrange(len(loaders) + 1),
                        {"lid": lid[0], "kind": "file", "doc": None, "missing": True, "args": [], "style": "block"})
     rng.shuffle(loaders)                               # every insertion order
+    if profile in ("plain", "conflict") and rng.random() < 0.30:
+        add_repeat(rng, loaders, lid)
     ops = []
     i = 0
     first = True
@@ -283,11 +286,91 @@ def gen_case(rng, cid, profile):
     osargs = []
     if rng.random() < 0.45:
         osargs = gen_args(rng, schema, rng.choice(["ok", "ok", "dup", "overwrite"]))
+    if osargs and profile == "plain" and rng.random() < 0.12:
+        # the command line's own arguments once more in an explicit ArgsLoader, after an overriding raw document
+        lid[0] += 2
+        again = {"lid": lid[0], "kind": "args", "doc": None, "missing": False, "args": copy.deepcopy(osargs),
+                 "style": "block", "grp": 0}
+        grp = [again]
+        ov = override_of(rng, nest([(p, a) for p, a in osargs]), lid[0] - 1, ["raw"])
+        if ov:
+            grp.insert(0, ov)
+        ops.append({"op": "addloaders", "loaders": grp})
     case = {"id": cid, "osargs": osargs, "ops": ops, "prefix": "", "child": False, "profile": profile}
     finish_case(rng, case)
     if osargs and rng.random() < 0.12:
         case["child"] = True
     return case
+
+
+def different_atom(rng, a):
+    for _ in range(20):
+        b = gen_atom(rng, False)
+        if b != a and not (b[0] == "s" and " " in b[1]):
+            return b
+    return ["s", "other"]
+
+
+def override_of(rng, doc, lid, kinds):
+    """a loader that gives some leaf paths of `doc` a DIFFERENT value (same shape: leaf for leaf), plus sometimes a key
+    of its own; None if doc has no leaf"""
+    leaves = [(p, a) for p, a in leaf_paths(doc) if p]
+    if not leaves:
+        return None
+    rng.shuffle(leaves)
+    picked = leaves[:rng.choice([1, 1, 2, 3])]
+    pairs = [(p, different_atom(rng, a)) for p, a in picked]
+    if rng.random() < 0.3:
+        pairs.append((["own%d" % lid], gen_atom(rng, False)))
+    kind = rng.choice(kinds)
+    L = {"lid": lid, "kind": kind, "doc": None, "missing": False, "args": [], "style": rng.choice(["block", "flow"])}
+    if kind == "args":
+        L["args"] = [[p, a] for p, a in pairs]
+    else:
+        L["doc"] = nest(pairs)
+    return L
+
+
+def add_repeat(rng, loaders, lid):
+    """A ... B ... A: a second loader that delivers exactly the bytes loader A delivers (the same raw text, the same
+    file once more, another file / raw bytes with the content of a file, the same arguments), later in the insertion
+    order, usually with a loader in between that overrides some of A's leaves. Each source is merged in its position,
+    so the later occurrence must win for the shared keys."""
+    cands = [L for L in loaders if not L["missing"] and (L["args"] if L["kind"] == "args" else L["doc"] and L["doc"][1])]
+    if not cands:
+        return
+    A = rng.choice(cands)
+    i = loaders.index(A)
+    lid[0] += 1
+    D = copy.deepcopy(A)
+    D["lid"] = lid[0]
+    A.setdefault("grp", A["lid"])
+    D["grp"] = A["grp"]
+    r = rng.random()
+    if A["kind"] == "file":
+        if r < 0.45:
+            D["kind"] = "raw"                          # raw bytes equal to the content of an earlier file
+            D.pop("fileof", None)
+        elif r < 0.75:
+            D["fileof"] = A.get("fileof", A["lid"])    # the very same file loaded twice
+        # else: another file with the same content
+    elif A["kind"] == "raw" and r < 0.2:
+        D["kind"] = "file"                             # a file with the content of a raw loader (files merge first)
+    between = []
+    if rng.random() < 0.75:
+        lid[0] += 1
+        ov = override_of(rng, loader_doc(A), lid[0], ["raw", "raw", "raw", "args", "file"])
+        if ov:
+            between.append(ov)
+    loaders[i + 1:i + 1] = between
+    j = rng.randint(i + 1 + len(between), len(loaders))
+    loaders.insert(j, D)
+    if rng.random() < 0.15:                            # A, B, A, B', A
+        lid[0] += 2
+        D2 = copy.deepcopy(D)
+        D2["lid"] = lid[0]
+        ov = override_of(rng, loader_doc(A), lid[0] - 1, ["raw", "args"])
+        loaders[j + 1:j + 1] = ([ov] if ov else []) + [D2]
 
 
 def loader_doc(L):
@@ -370,7 +453,7 @@ def go_case(ctx, case):
             return {"kind": "raw", "text": doc_text(L["doc"], L["style"])}
         if L["kind"] == "args":
             return {"kind": "args", "args": ["prog", "-x"] + [arg_text(p, a) for p, a in L["args"]]}
-        f = os.path.join(fdir, "c%d_l%d.yaml" % (case["id"], L["lid"]))
+        f = os.path.join(fdir, "c%d_l%d.yaml" % (case["id"], L.get("fileof", L["lid"])))
         if L["missing"]:
             f += ".missing"
         else:
@@ -535,8 +618,16 @@ def drop_key(t, path):
     return ["m", [[k, (drop_key(v, path[1:]) if k == path[0] and v[0] == "m" else v)] for k, v in t[1]]]
 
 
+def twins(d, i, j):
+    """the loader at ops[i].loaders[j] and every loader that must keep delivering the same bytes (same grp)"""
+    L = d["ops"][i]["loaders"][j]
+    if "grp" not in L:
+        return [L]
+    return [X for o in d["ops"] for X in o["loaders"] if X.get("grp") == L["grp"] and
+            (X["kind"] == "args") == (L["kind"] == "args")]
+
+
 def shrink_candidates(c):
-    import copy
     out = []
 
     def variant(f):
@@ -558,10 +649,12 @@ def shrink_candidates(c):
             L = c["ops"][i]["loaders"][j]
             if L["doc"]:
                 for p in all_paths(L["doc"]):
-                    variant(lambda d, i=i, j=j, p=p: d["ops"][i]["loaders"][j].__setitem__(
-                        "doc", drop_key(d["ops"][i]["loaders"][j]["doc"], p)))
+                    variant(lambda d, i=i, j=j, p=p: [X.__setitem__("doc", drop_key(X["doc"], p))
+                                                      for X in twins(d, i, j) if X["doc"]])
             for a in range(len(L["args"])):
-                variant(lambda d, i=i, j=j, a=a: d["ops"][i]["loaders"][j]["args"].pop(a))
+                if L.get("grp") == 0:
+                    continue
+                variant(lambda d, i=i, j=j, a=a: [X["args"].pop(a) for X in twins(d, i, j) if a < len(X["args"])])
     return out
 
 
@@ -601,6 +694,54 @@ def vanished(entry):
         if g is None and p in supplied:
             gone.append(".".join(p))
     return gone
+
+
+def sort_tree(t):
+    if t[0] == "m":
+        return ["m", sorted([[k, sort_tree(v)] for k, v in t[1]])]
+    return t
+
+
+def payload(L):
+    """what identifies the bytes a loader delivers (None = nothing / unreadable)"""
+    if L.get("missing"):
+        return None
+    if L["kind"] == "args":
+        return ("args", json.dumps(sort_tree(nest([(p, a) for p, a in L["args"]])))) if L["args"] else None
+    if L["doc"] is None:
+        return None
+    return ("text", doc_text(L["doc"], L.get("style", "block")))
+
+
+def overrides(B, A):
+    """document B gives some leaf path of document A another (non-map) value"""
+    la = {tuple(p): a for p, a in leaf_paths(A)}
+    return any(tuple(p) in la and la[tuple(p)] != b for p, b in leaf_paths(B))
+
+
+def repeat_stats(case):
+    fin = final_loaders(case)
+    seq = [L for L in fin if L["kind"] == "file"] + [L for L in fin if L["kind"] != "file"]
+    pay = [payload(L) for L in seq]
+    docs = [loader_doc(L) for L in seq]
+    st = {"same": False, "aba": False, "samefile": False, "rawfile": False, "args": False, "osargs": False}
+    paths = [L.get("fileof", L["lid"]) if L["kind"] == "file" else None for L in seq]
+    for i in range(len(seq)):
+        for k in range(i + 1, len(seq)):
+            if pay[i] is None or pay[i] != pay[k]:
+                continue
+            st["same"] = True
+            if paths[i] is not None and paths[i] == paths[k]:
+                st["samefile"] = True
+            if {seq[i]["kind"], seq[k]["kind"]} == {"raw", "file"}:
+                st["rawfile"] = True
+            if seq[i]["kind"] == "args":
+                st["args"] = True
+                if seq[i]["lid"] == 0:
+                    st["osargs"] = True
+            if any(docs[j] and docs[i] and overrides(docs[j], docs[i]) for j in range(i + 1, k)):
+                st["aba"] = True
+    return st
 
 
 def run(ctx):
@@ -680,6 +821,14 @@ def run(ctx):
                 k += 1
         nload[k] = nload.get(k, 0) + 1
         profiles[c.get("profile", "corpus")] = profiles.get(c.get("profile", "corpus"), 0) + 1
+    rep = {"cases_with_the_same_payload_bytes_twice": 0,
+           "of_these_with_an_overriding_loader_in_between(A,B,A)": 0,
+           "same_file_loaded_twice": 0, "raw_bytes_equal_to_a_file's_content": 0,
+           "same_arguments_in_two_ArgsLoaders": 0, "os.Args_repeated_in_an_explicit_ArgsLoader": 0}
+    for c in cases:
+        st = repeat_stats(c)
+        for k, f in zip(rep, ("same", "aba", "samefile", "rawfile", "args", "osargs")):
+            rep[k] += 1 if st[f] else 0
     ids = sorted(by_id)
     samples = [by_id[i] for i in ids[:1] + ids[-2:]]
     cov = {
@@ -694,7 +843,8 @@ def run(ctx):
         "traces_validated_against_impl": len(cases),
         "input_distribution": {"loader_kinds": kinds, "loaders_per_case": nload, "options": opkinds, "profiles": profiles,
                                "child_process_cases(real os.Args)": sum(1 for c in cases if c["child"]),
-                               "prefix_bound_cases": sum(1 for c in cases if c["prefix"])},
+                               "prefix_bound_cases": sum(1 for c in cases if c["prefix"]),
+                               "repeated_payloads": rep},
         "nontrivial_cases": nt,
         "distinct_cases": len(distinct),
         "known_finding_class_sizes": {"KF-C15b": len(KB), "KF-C15c": len(KC)},
